@@ -4863,6 +4863,7 @@ bool SoPlexBase<R>::getBasisInverseRowReal(int r, R* coef, int* inds, int* ninds
       {
          SPX_MSG_INFO1(spxout, spxout << "Caught exception <" << E.what() <<
                        "> while computing basis inverse row.\n");
+         spx_free(bind);
          return false;
       }
 
@@ -5058,6 +5059,7 @@ bool SoPlexBase<R>::getBasisInverseColReal(int c, R* coef, int* inds, int* ninds
          {
             SPX_MSG_INFO1(spxout, spxout << "Caught exception <" << E.what() <<
                           "> while computing basis inverse column.\n");
+            spx_free(bind);
             return false;
          }
 
@@ -5227,6 +5229,7 @@ bool SoPlexBase<R>::getBasisInverseTimesVecReal(R* rhs, R* sol, bool unscale)
       {
          SPX_MSG_INFO1(spxout, spxout << "Caught exception <" << E.what() <<
                        "> while solving with basis matrix.\n");
+         spx_free(bind);
          return false;
       }
 
